@@ -7,9 +7,8 @@ Definition c18_tts (t : rty) : str := tts t.
 Definition c18_emit (s : site) (md : mode) (m : mapping) (t : rty) : option str := emit_type s md m t.
 Definition c18_oracle (s : site) (md : mode) (m : mapping) (t : rty) (with_text without_text : str) : bool :=
   c18_ok (site_is_type s md) m t with_text without_text.
-Definition c18_classes (s : site) (md : mode) (m : mapping) (t : rty) : list k18 := classes18 s md m t.
 Definition c18_dom (m : mapping) (t : rty) : bool := dom_m m t.
 Definition c18_mentions (m : mapping) (t : rty) : bool := mentions m t.
 
 Extraction Language OCaml.
-Extraction "tt_c18.ml" c18_tts c18_emit c18_oracle c18_classes c18_dom c18_mentions.
+Extraction "tt_c18.ml" c18_tts c18_emit c18_oracle c18_dom c18_mentions.
